@@ -139,6 +139,10 @@ class USym(UBase):
     def bytes(self, name, n):
         return core.fresh_bytes(name, n)
 
+    def buffer(self, prefix, name, n):
+        """bytes: concrete prefix followed by n symbolic bytes"""
+        return SymBytes(list(prefix) + self.bytes(name, n).items)
+
     def choice(self, name, options):
         """finite choice, one path per option (options are concrete Python values)"""
         options = list(options)
@@ -242,6 +246,9 @@ class UConc(UBase):
                 v = bytes(self.rng.randrange(256) for _ in range(n))
         self.drawn[name] = v.hex()
         return v
+
+    def buffer(self, prefix, name, n):
+        return bytearray(bytes(prefix) + self.bytes(name, n))
 
     def choice(self, name, options):
         options = list(options)
